@@ -21,15 +21,15 @@ import (
 )
 
 type integArg struct {
-	Case    string `json:"case"`
-	Kind    string `json:"kind"`   // grpc | gin | dubbo
-	Side    string `json:"side"`   // roundtrip (caller interceptor -> transport -> callee interceptor) | server (hand-made inbound carrier)
-	Xid     string `json:"xid"`    // synthetic xid for the caller context ("" with RealTx)
-	Key     string `json:"key"`    // carrier key spelling for Side=server
-	RealTx  bool   `json:"real_tx"` // caller begins a real global transaction at the TC
-	Name    string `json:"name"`   // transaction name for RealTx / callee scope
-	Outcome string `json:"callee_outcome"` // nil | error
-	Stale   map[string]string `json:"stale"` // entries already present on the caller's outbound carrier (a middle service forwarding what it received)
+	Case    string            `json:"case"`
+	Kind    string            `json:"kind"`           // grpc | gin | dubbo
+	Side    string            `json:"side"`           // roundtrip (caller interceptor -> transport -> callee interceptor) | server (hand-made inbound carrier)
+	Xid     string            `json:"xid"`            // synthetic xid for the caller context ("" with RealTx)
+	Key     string            `json:"key"`            // carrier key spelling for Side=server
+	RealTx  bool              `json:"real_tx"`        // caller begins a real global transaction at the TC
+	Name    string            `json:"name"`           // transaction name for RealTx / callee scope
+	Outcome string            `json:"callee_outcome"` // nil | error
+	Stale   map[string]string `json:"stale"`          // entries already present on the caller's outbound carrier (a middle service forwarding what it received)
 }
 
 type integRes struct {
@@ -37,9 +37,9 @@ type integRes struct {
 	CallerRet     string            `json:"caller_returned"`
 	CallerErr     string            `json:"caller_err,omitempty"`
 	CalleeReached bool              `json:"callee_reached"`
-	CalleeXidCtx  string            `json:"callee_xid_ctx"`  // xid in the context handed to the callee's handler
-	CalleeRan     bool              `json:"callee_ran"`      // callee's WithGlobalTx(Required) callback ran
-	CalleeXid     string            `json:"callee_xid"`      // xid seen inside the callee's callback
+	CalleeXidCtx  string            `json:"callee_xid_ctx"` // xid in the context handed to the callee's handler
+	CalleeRan     bool              `json:"callee_ran"`     // callee's WithGlobalTx(Required) callback ran
+	CalleeXid     string            `json:"callee_xid"`     // xid seen inside the callee's callback
 	CalleeRole    string            `json:"callee_role"`
 	CalleeRet     string            `json:"callee_returned"`
 	Carrier       map[string]string `json:"carrier,omitempty"` // what travelled (metadata / headers / attachments)
